@@ -28,7 +28,7 @@ def run(ctx):
     dev = os.environ.get("VERIF_DEV_SKIP_MC") == "1"      # development aid only (mutant loops): skips the model runs
     if not dev:
         ctx.tlc_mc("MC_SniffTCP", "MC_SniffTCP_big.cfg" if T else "MC_SniffTCP.cfg", coverage=T, workers=8 if T else 4)
-    for m in () if dev else (("mutProbe", "mutShort", "mutTee", "mutPad", "mutPort", "mutInPlace") if T else ("mutProbe", "mutTee", "mutInPlace")):
+    for m in () if dev else (("mutProbe", "mutShort", "mutTee", "mutPad", "mutPort", "mutPool", "mutInPlace") if T else ("mutProbe", "mutPool", "mutInPlace")):
         ctx.tlc_mc("MC_SniffTCP", "MC_SniffTCP_%s.cfg" % m, expect_violation=True, workers=2)
     # the scenarios are the initial states of the model: TLC enumerates all of them
     scns = ctx.tlc_gen("MC_SniffTCP", "Gen_SniffTCP.cfg", bfs=True)
